@@ -13,7 +13,10 @@ Inductive co :=
 | CNew (x : nat) (k : nat -> co)          (* iter(variable._domain_): a new handle *)
 | CPull (h : nat) (k : out -> co)         (* next(handle) *)
 | CYield (r : list Z) (k : co)            (* a row leaves evaluate() *)
-| CForget (k : co)                        (* evaluate(), first advance: the selectors of the query object forget their coverage *)
+| CForget (k : co)                        (* evaluate(), first advance: the selectors of the query object forget their coverage
+                                             (krrood 769edfe: the loop also reaches the selected variables' nodes and a try/finally
+                                             repeats it for Variable nodes at the end; both are no-ops for variables with a GIVEN domain,
+                                             the only ones in these models -- Variable._forget_evaluation_memory_ is pinned) *)
 | CConclude (key : list Z) (k : list Z -> co)
                                           (* ConclusionSelector.update_conclusion for key = tag :: binding; the continuation gets
                                              the node's _conclusion_ set (tags) as the descriptor is about to see it *)
@@ -58,7 +61,8 @@ Section Compile.
   (* evaluate_selected_variables (krrood 32abf51): lazy nested loops over the selected expressions, leftmost slowest, each
      evaluated under the bindings the ones before it produced; a bound selected variable yields once, an unbound one opens
      a handle on its domain; a row leaves as soon as the innermost loop produces it (nothing is drained beforehand) *)
-  (* a rule query (ExceptIf selector, conclusion_selector.py): for every base row the selector picks the refinement's
+  (* a rule query (ONE ExceptIf selector, evaluated by the query descriptor itself, so it records coverage -- krrood a70801b: an
+     inner selector would only propose its conclusions; conclusion_selector.py): for every base row the selector picks the refinement's
      conclusion (tag 1) or the base one (tag 0), adds it to the node's _conclusion_ set unless that conclusion already covered
      the binding, and yields to the descriptor; the descriptor applies EVERY conclusion it finds in the set (none: the row is
      skipped; two -- one left there by another, suspended evaluation of the same query object --: both Adds run and the set's
